@@ -813,7 +813,7 @@ func (f *faultConn) Write(b []byte) (int, error) {
 // response with the numeric final ("903"/"904"), and, when the client has sent CAP END,
 // lets the harness call Cmd.Oper (oper != nil) before closing.  It returns the lines the
 // client wrote, Connect's result, and whether everything finished in time.
-func scriptedConnect(cl *girc.Client, method, final string, oper func(), wrap func(net.Conn) net.Conn) ([]string, error, bool) {
+func scriptedConnect(cl *girc.Client, method, final, caps string, oper func(), wrap func(net.Conn) net.Conn) ([]string, error, bool) {
 	in, out := net.Pipe()
 	var conn net.Conn = out
 	if wrap != nil {
@@ -839,9 +839,9 @@ func scriptedConnect(cl *girc.Client, method, final string, oper func(), wrap fu
 				mu.Unlock()
 				switch {
 				case strings.HasPrefix(l, "USER "):
-					send(":srv CAP * LS :sasl")
+					send(":srv CAP * LS :" + caps)
 				case strings.HasPrefix(l, "CAP REQ"):
-					send(":srv CAP * ACK :sasl")
+					send(":srv CAP * ACK :" + caps)
 				case l == "AUTHENTICATE "+method:
 					send("AUTHENTICATE +")
 				case strings.HasPrefix(l, "AUTHENTICATE "):
@@ -850,7 +850,7 @@ func scriptedConnect(cl *girc.Client, method, final string, oper func(), wrap fu
 					}
 				case l == "CAP END":
 					capEnd <- struct{}{}
-				case strings.HasPrefix(l, "OPER "):
+				case strings.HasPrefix(l, "OPER ") || strings.Contains(l, " OPER "):
 					operSeen <- struct{}{}
 				}
 			}
@@ -925,10 +925,26 @@ const cleanupPrefix = "received error, beginning cleanup: "
 // runFault: one connection in which the write of one chosen line fails.
 // Case: kind a1 a2 serverpass webircpass operuser operpass prefix occurrence errtext.
 func runFault(c Case) Result {
-	for len(c) < 10 {
+	for len(c) < 11 {
 		c = append(c, "")
 	}
 	kind, a1, a2, spass, wpass, ou, op, prefix, errText := c[0], c[1], c[2], c[3], c[4], c[5], c[6], c[7], c[9]
+	// c[10]: "" = Cmd.Oper; "t" / "T" = the application sends the OPER line itself as a
+	// Sensitive event that carries a message tag, through Client.Send, on a connection
+	// where message-tags is not ("t") / is ("T") acknowledged (sendLoop strips the tags in
+	// the first case: the event it logs and writes must still be the Sensitive one)
+	tagMode := c[10]
+	caps := "sasl"
+	if tagMode == "T" {
+		caps = "sasl message-tags"
+	}
+	sendOper := func(cl *girc.Client) {
+		if tagMode == "" {
+			cl.Cmd.Oper(ou, op)
+			return
+		}
+		cl.Send(&girc.Event{Command: girc.OPER, Params: []string{ou, op}, Sensitive: true, Tags: girc.Tags{"label": "x1"}})
+	}
 	occ := 0
 	fmt.Sscanf(c[8], "%d", &occ)
 	cfg := drive.BaseConfig()
@@ -944,8 +960,20 @@ func runFault(c Case) Result {
 	secrets = append(secrets, spass, wpass, op)
 	cl := girc.New(cfg)
 	fc := &faultConn{prefix: prefix, occ: occ, errText: errText, armed: prefix != ""}
-	lines, err, ok := scriptedConnect(cl, mech.Method(), "903", func() { cl.Cmd.Oper(ou, op) }, func(n net.Conn) net.Conn { fc.Conn = n; return fc })
-	res := Result{Sig: kind + "/" + strings.TrimSpace(prefix) + c[8]}
+	lines, err, ok := scriptedConnect(cl, mech.Method(), "903", caps, func() { sendOper(cl) }, func(n net.Conn) net.Conn { fc.Conn = n; return fc })
+	res := Result{Sig: kind + "/" + strings.TrimSpace(prefix) + c[8] + tagMode}
+	if tagMode != "" && ok && (prefix == "" || prefix == "OPER " || prefix == "@label") {
+		// the tag section is on the wire exactly when message-tags was acknowledged
+		tagged := false
+		for _, l := range lines {
+			if strings.HasPrefix(l, "@label=x1 OPER ") {
+				tagged = true
+			}
+		}
+		if prefix == "" && tagged != (tagMode == "T") {
+			return Result{Obs: "E-;C-", Sig: res.Sig, Oracle: fmt.Sprintf("harness-tag-section: tag section on the wire = %v with message-tags acknowledged = %v (lines %q)", tagged, tagMode == "T", lines)}
+		}
+	}
 	var oracle []string
 	if !ok {
 		oracle = append(oracle, "harness-timeout: the scripted connection did not finish")
@@ -1009,9 +1037,9 @@ func runReconnect(c Case) Result {
 	cfg.SASL = creds
 	cl := girc.New(cfg)
 	var oracle []string
-	l1, e1, ok1 := scriptedConnect(cl, "PLAIN", "904", nil, nil)
+	l1, e1, ok1 := scriptedConnect(cl, "PLAIN", "904", "sasl", nil, nil)
 	creds.User, creds.Pass = c[2], c[3]
-	l2, e2, ok2 := scriptedConnect(cl, "PLAIN", "903", nil, nil)
+	l2, e2, ok2 := scriptedConnect(cl, "PLAIN", "903", "sasl", nil, nil)
 	if !ok1 || !ok2 {
 		oracle = append(oracle, "harness-timeout: a scripted connection did not finish")
 	}
@@ -1325,6 +1353,15 @@ func init() {
 					out = append(out, append(append(Case{}, base...), t[0], t[1], "write: broken pipe"))
 				}
 			}
+			for _, tm := range []string{"t", "T"} {
+				u, p := plainCreds(r, 64)
+				out = append(out, Case{"P", u, p, "", "", "operuser", randSecret(r), "", "0", "write: broken pipe", tm})
+			}
+			{
+				u, p := plainCreds(r, 64)
+				out = append(out, Case{"P", u, p, "", "", "operuser", randSecret(r), "OPER ", "0", "write: broken pipe", "t"},
+					Case{"P", u, p, "", "", "operuser", randSecret(r), "@label", "0", "write: broken pipe", "T"})
+			}
 			out = append(out, Case{"C", "XMECH", RandBytes(r, 400, b64Alphabet), "", "", "operuser", randSecret(r), "AUTHENTICATE ", "2", "injected write fault"},
 				Case{"E", RandBytes(r, 40, b64Alphabet), "", "", "", "operuser", randSecret(r), "AUTHENTICATE ", "1", "injected write fault"})
 			return out
@@ -1369,8 +1406,12 @@ func init() {
 				ts = append(ts, tg{"WEBIRC ", 0}, tg{"WEBIRC ", 0}, tg{"WEBIRC ", 0})
 			}
 			t := ts[r.Intn(len(ts))]
+			tagMode := Pick(r, "", "", "t", "T")
+			if tagMode == "T" && t.p == "OPER " {
+				t.p = "@label" // the tagged line starts with its tag section
+			}
 			return Case{kind, a1, a2, spass, wpass, "operuser", randSecret(r), t.p, fmt.Sprint(t.o),
-				Pick(r, "write: broken pipe", "injected write fault", "write tcp 192.0.2.1:6667: connection reset by peer", RandBytes(r, 1+r.Intn(20), safeSecretAlphabet))}
+				Pick(r, "write: broken pipe", "injected write fault", "write tcp 192.0.2.1:6667: connection reset by peer", RandBytes(r, 1+r.Intn(20), safeSecretAlphabet)), tagMode}
 		},
 		Run: runFault,
 	})
